@@ -5,6 +5,7 @@ import (
 	"fmt"
 	"math"
 	"sort"
+	"strconv"
 	"strings"
 	"time"
 )
@@ -1615,6 +1616,192 @@ func (vm *VM) registerBuiltins() {
 			return nil, fmt.Errorf("substring() end index out of bounds: %d (length %d)", end.Val, strLen)
 		}
 		return StringValue{Val: string(runes[start.Val:end.Val])}, nil
+	}
+	// startsWith() / endsWith() - check a prefix or suffix
+	vm.builtins["startsWith"] = func(args []Value) (Value, error) {
+		str, part, err := twoStrings("startsWith", args)
+		if err != nil {
+			return nil, err
+		}
+		return BoolValue{Val: strings.HasPrefix(str, part)}, nil
+	}
+	vm.builtins["endsWith"] = func(args []Value) (Value, error) {
+		str, part, err := twoStrings("endsWith", args)
+		if err != nil {
+			return nil, err
+		}
+		return BoolValue{Val: strings.HasSuffix(str, part)}, nil
+	}
+
+	// indexOf() - position of the first occurrence in characters, -1 when absent
+	vm.builtins["indexOf"] = func(args []Value) (Value, error) {
+		str, part, err := twoStrings("indexOf", args)
+		if err != nil {
+			return nil, err
+		}
+		byteIndex := strings.Index(str, part)
+		if byteIndex < 0 {
+			return IntValue{Val: -1}, nil
+		}
+		return IntValue{Val: int64(len([]rune(str[:byteIndex])))}, nil
+	}
+
+	// charAt() - the character at an index
+	vm.builtins["charAt"] = func(args []Value) (Value, error) {
+		if len(args) != 2 {
+			return nil, fmt.Errorf("charAt() takes exactly 2 arguments, got %d", len(args))
+		}
+		str, ok := args[0].(StringValue)
+		if !ok {
+			return nil, fmt.Errorf("charAt() first argument must be a string, got %T", args[0])
+		}
+		index, ok := args[1].(IntValue)
+		if !ok {
+			return nil, fmt.Errorf("charAt() second argument must be an integer, got %T", args[1])
+		}
+		runes := []rune(str.Val)
+		if index.Val < 0 || index.Val >= int64(len(runes)) {
+			return nil, fmt.Errorf("charAt() index out of bounds: %d", index.Val)
+		}
+		return StringValue{Val: string(runes[index.Val])}, nil
+	}
+
+	// parseInt() / parseFloat() - parse a number, blanks around it ignored
+	vm.builtins["parseInt"] = func(args []Value) (Value, error) {
+		if len(args) != 1 {
+			return nil, fmt.Errorf("parseInt() takes exactly 1 argument, got %d", len(args))
+		}
+		str, ok := args[0].(StringValue)
+		if !ok {
+			return nil, fmt.Errorf("parseInt() requires a string argument, got %T", args[0])
+		}
+		text := strings.TrimSpace(str.Val)
+		result, err := strconv.ParseInt(text, 10, 64)
+		if err != nil {
+			return nil, fmt.Errorf("parseInt() failed to parse '%s': %v", text, err)
+		}
+		return IntValue{Val: result}, nil
+	}
+	vm.builtins["parseFloat"] = func(args []Value) (Value, error) {
+		if len(args) != 1 {
+			return nil, fmt.Errorf("parseFloat() takes exactly 1 argument, got %d", len(args))
+		}
+		str, ok := args[0].(StringValue)
+		if !ok {
+			return nil, fmt.Errorf("parseFloat() requires a string argument, got %T", args[0])
+		}
+		text := strings.TrimSpace(str.Val)
+		result, err := strconv.ParseFloat(text, 64)
+		if err != nil {
+			return nil, fmt.Errorf("parseFloat() failed to parse '%s': %v", text, err)
+		}
+		return FloatValue{Val: result}, nil
+	}
+
+	// toString() - the value as text, spelled as the interpreter spells it
+	vm.builtins["toString"] = func(args []Value) (Value, error) {
+		if len(args) != 1 {
+			return nil, fmt.Errorf("toString() takes exactly 1 argument, got %d", len(args))
+		}
+		if _, isNull := args[0].(NullValue); isNull {
+			return StringValue{Val: "null"}, nil
+		}
+		return StringValue{Val: fmt.Sprintf("%v", valueToInterface(args[0]))}, nil
+	}
+
+	// keys() - the keys of an object, in ascending order
+	vm.builtins["keys"] = func(args []Value) (Value, error) {
+		if len(args) != 1 {
+			return nil, fmt.Errorf("keys() takes exactly 1 argument, got %d", len(args))
+		}
+		obj, ok := args[0].(ObjectValue)
+		if !ok {
+			return nil, fmt.Errorf("keys() requires an object argument, got %T", args[0])
+		}
+		names := make([]string, 0, len(obj.Val))
+		for k := range obj.Val {
+			names = append(names, k)
+		}
+		sort.Strings(names)
+		keys := make([]Value, len(names))
+		for i, k := range names {
+			keys[i] = StringValue{Val: k}
+		}
+		return ArrayValue{Val: keys}, nil
+	}
+
+	// abs() - absolute value
+	vm.builtins["abs"] = func(args []Value) (Value, error) {
+		if len(args) != 1 {
+			return nil, fmt.Errorf("abs() takes exactly 1 argument, got %d", len(args))
+		}
+		switch v := args[0].(type) {
+		case IntValue:
+			if v.Val == math.MinInt64 {
+				return nil, fmt.Errorf("abs() overflow: cannot negate minimum int64 value")
+			}
+			if v.Val < 0 {
+				return IntValue{Val: -v.Val}, nil
+			}
+			return v, nil
+		case FloatValue:
+			return FloatValue{Val: math.Abs(v.Val)}, nil
+		default:
+			return nil, fmt.Errorf("abs() requires a numeric argument, got %T", args[0])
+		}
+	}
+
+	// min() / max() - of two integers or two floats
+	vm.builtins["min"] = func(args []Value) (Value, error) {
+		return pickOfTwo("min", args)
+	}
+	vm.builtins["max"] = func(args []Value) (Value, error) {
+		return pickOfTwo("max", args)
+	}
+}
+
+// twoStrings checks the arguments of a builtin that takes two strings
+func twoStrings(name string, args []Value) (string, string, error) {
+	if len(args) != 2 {
+		return "", "", fmt.Errorf("%s() takes exactly 2 arguments, got %d", name, len(args))
+	}
+	first, ok := args[0].(StringValue)
+	if !ok {
+		return "", "", fmt.Errorf("%s() first argument must be a string, got %T", name, args[0])
+	}
+	second, ok := args[1].(StringValue)
+	if !ok {
+		return "", "", fmt.Errorf("%s() second argument must be a string, got %T", name, args[1])
+	}
+	return first.Val, second.Val, nil
+}
+
+// pickOfTwo implements min() and max() of two integers or two floats
+func pickOfTwo(name string, args []Value) (Value, error) {
+	if len(args) != 2 {
+		return nil, fmt.Errorf("%s() takes exactly 2 arguments, got %d", name, len(args))
+	}
+	switch l := args[0].(type) {
+	case IntValue:
+		r, ok := args[1].(IntValue)
+		if !ok {
+			return nil, fmt.Errorf("%s() arguments must be same type", name)
+		}
+		if (name == "min" && l.Val < r.Val) || (name == "max" && l.Val > r.Val) {
+			return l, nil
+		}
+		return r, nil
+	case FloatValue:
+		r, ok := args[1].(FloatValue)
+		if !ok {
+			return nil, fmt.Errorf("%s() arguments must be same type", name)
+		}
+		if (name == "min" && l.Val < r.Val) || (name == "max" && l.Val > r.Val) {
+			return l, nil
+		}
+		return r, nil
+	default:
+		return nil, fmt.Errorf("%s() requires numeric arguments, got %T", name, args[0])
 	}
 }
 
